@@ -104,6 +104,12 @@ pub struct CConfig {
     pub resolver_pendings: u8,
     pub entry: Entry,
     pub set_port: bool,
+    /// `set_port` names a port other than the one in the host string
+    #[serde(default)]
+    pub set_port_alt: bool,
+    /// per slot: rank that decides the numeric order of the slots' ports within an address family
+    #[serde(default)]
+    pub port_rank: Vec<u8>,
     pub local_addr: bool,
     // tls part
     pub openssl: bool,
@@ -128,6 +134,8 @@ pub fn gen(rng: &mut Rng) -> CConfig {
         resolver_pendings: rng.range(0, 2) as u8,
         entry: rng.pick(&[Entry::Connector, Entry::Connector, Entry::Connector, Entry::TcpOnly, Entry::ResolverOnly]).clone(),
         set_port: rng.chance(1, 2),
+        set_port_alt: rng.chance(1, 2),
+        port_rank: (0..n).map(|_| rng.below(200) as u8).collect(),
         local_addr: rng.chance(1, 5),
         openssl: rng.chance(1, 2),
         cert: rng.pick(&[Cert::Good, Cert::Good, Cert::OtherName, Cert::RogueCa, Cert::IpOnly]).clone(),
@@ -209,6 +217,40 @@ fn make_target(live: bool, v6: bool) -> Target {
     }
 }
 
+/// All slots at once: the sockets are bound first, then handed to the slots so that the numeric
+/// order of the ports within an address family follows `rank` (kernel port numbers are not under
+/// the seed's control; their order relation is, this way).
+fn make_targets(live: &[bool], v6: &[bool], rank: &[u8]) -> Vec<Target> {
+    let n = live.len();
+    let mut out: Vec<Option<Target>> = (0..n).map(|_| None).collect();
+    for fam6 in [false, true] {
+        let ip: IpAddr = if fam6 { "::1".parse().unwrap() } else { "127.0.0.1".parse().unwrap() };
+        let mut slots: Vec<usize> = (0..n).filter(|i| v6[*i] == fam6).collect();
+        slots.sort_by_key(|i| (rank.get(*i).copied().unwrap_or(*i as u8), *i));
+        let mut socks: Vec<(u16, socket2::Socket)> = slots
+            .iter()
+            .map(|_| {
+                let s = socket2::Socket::new(if fam6 { socket2::Domain::IPV6 } else { socket2::Domain::IPV4 }, socket2::Type::STREAM, None).unwrap();
+                s.bind(&SocketAddr::new(ip, 0).into()).unwrap();
+                (s.local_addr().unwrap().as_socket().unwrap().port(), s)
+            })
+            .collect();
+        socks.sort_by_key(|(p, _)| *p);
+        for (slot, (port, s)) in slots.into_iter().zip(socks) {
+            let a = SocketAddr::new(ip, port);
+            out[slot] = Some(if live[slot] {
+                s.listen(128).expect("listen");
+                let l: TcpListener = s.into();
+                l.set_nonblocking(true).unwrap();
+                Target::Live(l, a)
+            } else {
+                Target::Closed(s, a)
+            });
+        }
+    }
+    out.into_iter().map(|t| t.unwrap()).collect()
+}
+
 #[derive(Debug, PartialEq, Clone)]
 enum Expect {
     Connected(SocketAddr),
@@ -221,12 +263,15 @@ enum Expect {
 }
 
 async fn run_tcp(cfg: &CConfig, ctx: &mut RunCtx) -> Option<Violation> {
-    let targets: Vec<Target> = cfg.live.iter().zip(cfg.v6.iter()).map(|(l, v)| make_target(*l, *v)).collect();
+    let targets: Vec<Target> = make_targets(&cfg.live, &cfg.v6, &cfg.port_rank);
     let addrs: Vec<SocketAddr> = targets.iter().map(|t| t.addr()).collect();
     // one extra live listener on 127.0.0.1 for IP-literal / localhost hosts: they dial host:port
     let ip_target = make_target(cfg.live.first().copied().unwrap_or(true), false);
     let ip_port = ip_target.addr().port();
     let req_port = ip_port;
+    // a second 127.0.0.1 listener for a `set_port` that disagrees with the port in the host string
+    let alt_target = make_target(true, false);
+    let set_port_val = if cfg.set_port_alt { alt_target.addr().port() } else { req_port };
 
     let host: String = match cfg.host {
         HostKind::Name => "svc.sim".into(),
@@ -242,7 +287,7 @@ async fn run_tcp(cfg: &CConfig, ctx: &mut RunCtx) -> Option<Violation> {
         _ => ConnectInfo::new(host.clone()),
     };
     if cfg.set_port {
-        req = req.set_port(req_port);
+        req = req.set_port(set_port_val);
     }
     let preset_addrs: Vec<SocketAddr> = match cfg.preset {
         Preset::None => vec![],
@@ -258,7 +303,8 @@ async fn run_tcp(cfg: &CConfig, ctx: &mut RunCtx) -> Option<Violation> {
     if cfg.local_addr {
         req = req.set_local_addr(IpAddr::from([127, 0, 0, 1]));
     }
-    let eff_port: u16 = if host_has_port { req_port } else if cfg.set_port { req_port } else { 0 };
+    // the port carried by the request's host wins, `set_port` is the fallback
+    let eff_port: u16 = if host_has_port { req_port } else if cfg.set_port { set_port_val } else { 0 };
 
     let log = Rc::new(RefCell::new(Vec::new()));
     let answer = match cfg.resolver {
@@ -307,7 +353,7 @@ async fn run_tcp(cfg: &CConfig, ctx: &mut RunCtx) -> Option<Violation> {
         if cfg.local_addr && a.is_ipv6() {
             return false;
         }
-        targets.iter().any(|t| matches!(t, Target::Live(_, x) if x == a)) || matches!(&ip_target, Target::Live(_, x) if x == a)
+        targets.iter().any(|t| matches!(t, Target::Live(_, x) if x == a)) || matches!(&ip_target, Target::Live(_, x) if x == a) || matches!(&alt_target, Target::Live(_, x) if x == a)
     };
     let expect: Expect = match (&dial_list, &cfg.entry) {
         (Err(e), _) => e.clone(),
@@ -366,7 +412,7 @@ async fn run_tcp(cfg: &CConfig, ctx: &mut RunCtx) -> Option<Violation> {
 
     // accept counters of the loopback listeners
     let mut accepted: Vec<(SocketAddr, usize)> = Vec::new();
-    for t in targets.iter().chain(std::iter::once(&ip_target)) {
+    for t in targets.iter().chain([&ip_target, &alt_target]) {
         if let Target::Live(l, a) = t {
             let mut n = 0;
             // the kernel has queued the connection before connect() returned
@@ -414,6 +460,12 @@ async fn run_tcp(cfg: &CConfig, ctx: &mut RunCtx) -> Option<Violation> {
                 }
             }
             ctx.bump("probe.connected");
+            if host_has_port && cfg.set_port && cfg.set_port_alt && is_ip && preset_addrs.is_empty() {
+                ctx.bump("probe.host_port_beats_set_port");
+            }
+            if dial_list.as_ref().map_or(false, |l| l.windows(2).any(|w| w[0] > w[1]) && l.iter().filter(|a| live_of(a)).count() >= 2) {
+                ctx.bump("probe.unsorted_list_with_two_live");
+            }
             if dial_list.as_ref().map_or(false, |l| l.first() != Some(want)) {
                 ctx.bump("probe.fallback_to_later_address");
             }
@@ -739,7 +791,7 @@ fn crate_payload(seed: u64, len: usize, salt: u64) -> Vec<u8> {
 
 pub fn describe() -> Describe {
     Describe {
-        rule: "TCP part: address lists of length 0..4 whose entries are independently a live loopback listener or a reserved closed port (IPv4 and IPv6), host strings with/without port, IP literals, non-numeric port text, pre-set One/Multi addresses or with_addr, set_port, optional local bind address, default resolver (localhost) or scripted resolver returning list / empty / error after 0..2 Pending polls, entered through Connector, TcpConnector alone or Resolver alone; outcome, dialled address, accept counters of every listener and the resolver call log are compared with a precedence model. TLS part: rustls 0.23 and OpenSSL connector services over the in-memory duplex against a hand-driven rustls server holding a certificate that covers / does not cover the requested host, is issued by an untrusted CA or lists only an IP, for host strings incl. host:port, another name, an invalid name and an IP literal; seeded delivery chunking; payload round trip after success. non-trivial = every run; distinct = distinct event-trace hash".into(),
+        rule: "TCP part: address lists of length 0..4 whose entries are independently a live loopback listener or a reserved closed port (IPv4 and IPv6), host strings with/without port, IP literals, non-numeric port text, pre-set One/Multi addresses or with_addr, set_port (equal to or different from the port in the host string: the host's port wins), the numeric order of the slots' ports follows a seeded rank (so that the dial order of a list is never accidentally its sorted order), optional local bind address, default resolver (localhost) or scripted resolver returning list / empty / error after 0..2 Pending polls, entered through Connector, TcpConnector alone or Resolver alone; outcome, dialled address, accept counters of every listener and the resolver call log are compared with a precedence model. TLS part: rustls 0.23 and OpenSSL connector services over the in-memory duplex against a hand-driven rustls server holding a certificate that covers / does not cover the requested host, is issued by an untrusted CA or lists only an IP, for host strings incl. host:port, another name, an invalid name and an IP literal; seeded delivery chunking; payload round trip after success. non-trivial = every run; distinct = distinct event-trace hash".into(),
         real: vec!["actix_tls::connect::{Connector, ConnectorService, Resolver, ResolverService, TcpConnector, TcpConnectorService, ConnectInfo, Connection, Host}", "actix_tls::connect::{rustls_0_23, openssl}::TlsConnectorService", "kernel loopback TCP, tokio I/O driver", "rustls 0.23 / OpenSSL certificate verification"],
         stub: vec!["DNS: scripted Resolve implementation (default resolver only for localhost)", "TLS server: hand-driven rustls::ServerConnection", "wire for the TLS part: in-memory duplex"],
         assumptions: vec!["connect timing (slow SYN, half-open) cannot be simulated on kernel loopback and is not part of C19", "rustls 0.20-0.22 and native-tls connectors are not exercised"],
@@ -747,5 +799,5 @@ pub fn describe() -> Describe {
 }
 
 pub fn required_probes() -> Vec<&'static str> {
-    vec!["probe.connected", "probe.fallback_to_later_address", "probe.no_records", "probe.resolver_error", "probe.unresolved", "probe.all_refused", "probe.resolver_consulted", "probe.tls_connected", "probe.tls_rejected", "probe.tls_payload_roundtrip"]
+    vec!["probe.connected", "probe.fallback_to_later_address", "probe.no_records", "probe.resolver_error", "probe.unresolved", "probe.all_refused", "probe.resolver_consulted", "probe.tls_connected", "probe.tls_rejected", "probe.tls_payload_roundtrip", "probe.host_port_beats_set_port", "probe.unsorted_list_with_two_live"]
 }
